@@ -12,7 +12,7 @@ from .c02 import Stream
 ID = 'C04'
 NEED_BINS = True
 SIZES = {'quick': 1200, 'thorough': 40000}
-REQUIRED_EVENTS = ['assignments_compared', 'typed_results_agreed']
+REQUIRED_EVENTS = ['assignments_compared', 'typed_results_agreed', 'decodes_agreed']
 RULE = ('layer sets of 1-3 layers x 1-2 documents over map-rooted, null-free trees of printable strings, 64-bit integers (> 2^31, > 2^53), '
         'doubles (0.1, 17-digit values, extremes), bools and nested containers; children are built so that comparisons decide the result: '
         'document-level $match and list $match/$delete patterns containing numbers, $repeat counts, same-value overrides. Every one of the 3^n '
@@ -95,7 +95,29 @@ def child_doc(rng, target, labels):
     return c
 
 
+HOSTILE = ['1', '1e3', '0x10', 'true', 'No', 'null', '~', '2001-01-01', '# x', '---', '+++', 'a: b', '- x', '&a', '*a', '!x', '|', '>', '', ' lead', 'trail ', 'q"uo', "s'q", 'back\\slash',
+           'ünï', '日本', '=', '1:20', 'yes', '$x', '$merge:a', '<<', 'a\nb', 'l1\nl2\n', 'x\n---\ny', 'tab\there', '[x]', '{y}', ',', 'k=v', '.5', '+1', '0o7', '1_000', '\u00e9']
+
+
+def gen_decode(rng, i):
+    """Decoder agreement: the same logical trees written in every format and style must be read as exactly those trees."""
+    pool = INTS + FLTS + STRS + HOSTILE + [True, False]
+    keys = gen.KEYS + rng.sample(HOSTILE, 3)
+    docs = []
+    allmap = rng.random() < 0.7
+    for _ in range(rng.choice([1, 1, 2, 3])):
+        d = gen.tree(rng, rng.choice([2, 3, 4]), 3, nulls=rng.random() < 0.3, root='map' if allmap else rng.choice(['map', 'list']), pool=pool, keys=keys)
+        if isinstance(d, dict) and rng.random() < 0.4:
+            sub = gen.tree(rng, 2, 3, nulls=False, root=rng.choice(['map', 'list']), pool=pool, keys=keys)
+            d['rep1'] = sub
+            d['rep2'] = {'inner': clone(sub), 'again': [clone(sub)]}
+        docs.append(d)
+    return {'kind': 'decode', 'docs': docs, 'labels': ['kind:decode']}
+
+
 def gen_case(rng, i, tier):
+    if i % 4 == 3:
+        return gen_decode(rng, i)
     labels = set()
     nl = rng.choice([1, 2, 2, 3, 3])
     layers = []
@@ -125,6 +147,16 @@ def fixed_cases(tier):
 
 def shrink(case):
     from ..shrink import shrink_tree
+    if case.get('kind') == 'decode':
+        docs = case['docs']
+        if len(docs) > 1:
+            for i in range(len(docs)):
+                yield dict(case, docs=docs[:i] + docs[i + 1:])
+        for i, d in enumerate(docs):
+            for t in shrink_tree(d):
+                if type(t) is type(d):
+                    yield dict(case, docs=docs[:i] + [t] + docs[i + 1:])
+        return
     layers = case['layers']
     if len(layers) > 1:
         yield dict(case, layers=layers[:-1])
@@ -175,7 +207,77 @@ def yaml_anchor_variant(doc):
     return text, d
 
 
+def check_decode(ctx, case):
+    res = Result()
+    res.labels.add('kind:decode')
+    docs = case['docs']
+    rng = random.Random(json.dumps(docs, sort_keys=True))
+    d = ctx.casedir()
+    ops = []
+    meta = []
+    k = 0
+    toml_ok = all(ser.toml_ok(x) for x in docs)
+    yaml_ok = all(isinstance(x, (dict, list)) for x in docs)
+    for fmt, styles in (('json', ['compact', 'spaced', 'pretty']), ('yaml', ['quoted', 'plain', 'flow', 'rich']), ('yml', ['rich', 'plain']), ('toml', ['tables', 'inline', 'dotted']), ('jsonl', ['compact'])):
+        if fmt == 'toml' and not toml_ok:
+            continue
+        if fmt in ('yaml', 'yml') and not yaml_ok:
+            continue
+        for st in styles:
+            if fmt in ('json', 'jsonl'):
+                text = '\n'.join(ser.to_json(x, rng, st) for x in docs) + '\n'
+            else:
+                text = ser.write(fmt, docs, rng, st)
+            path = os.path.join(d, 'f%d.%s' % (k, fmt))
+            with open(path, 'w') as fh:
+                fh.write(text)
+            ops += [{'op': 'merge_file', 'path': path, 'parser': k}, {'op': 'documents', 'parser': k}]
+            meta.append((fmt, st, text))
+            k += 1
+    resp = ctx.call(ops, res)
+    ctx.cleanup_case(d)
+    if resp is None:
+        return res.violate('crash', 'worker died', docs=docs)
+    res.nontrivial = True
+    for j, (fmt, st, text) in enumerate(meta):
+        m, dr = resp['results'][2 * j], resp['results'][2 * j + 1]
+        if m.get('panic'):
+            return res.violate('crash', 'panic: ' + m['panic'][:300], docs=docs, text=text)
+        if m['err'] is not None:
+            return res.violate('decode', '%s (%s style) written by the harness is rejected: %s' % (fmt, st, m['err']), docs=docs, text=text)
+        got = [x['data'] for x in dr['docs']]
+        if not veq(got, docs):
+            return res.violate('decode', '%s (%s style) is read as different documents than the same content in the other formats' % (fmt, st), docs=docs, text=text, got=got)
+        res.ev('decodes_agreed')
+    res.labels.add('toml:' + ('yes' if toml_ok else 'no'))
+    return res
+
+
+def check_decode_raw(ctx, case):
+    """A hand-written file text (regression input of a recorded finding) must be read as the given documents."""
+    res = Result()
+    d = ctx.casedir()
+    path = os.path.join(d, 'raw.' + case['fmt'])
+    with open(path, 'w') as fh:
+        fh.write(case['text'])
+    resp = ctx.call([{'op': 'merge_file', 'path': path}, {'op': 'documents'}], res)
+    ctx.cleanup_case(d)
+    res.nontrivial = True
+    if resp is None:
+        return res.violate('crash', 'worker died', case=case)
+    m, dr = resp['results']
+    if m['err'] is not None:
+        return res.violate('decode', '%s input is rejected: %s' % (case['fmt'], m['err']), text=case['text'])
+    if not veq([x['data'] for x in dr['docs']], case['docs']):
+        return res.violate('decode', '%s input is read as different documents' % case['fmt'], text=case['text'], got=dr['docs'])
+    return res
+
+
 def check_case(ctx, case):
+    if case.get('kind') == 'decode':
+        return check_decode(ctx, case)
+    if case.get('kind') == 'decode-raw':
+        return check_decode_raw(ctx, case)
     res = Result()
     res.labels.update(case.get('labels', []))
     layers = case['layers']
